@@ -364,6 +364,14 @@ def conv_pred(p):
     c2 = float(NonlocalGame(prob0, V).classical_value())
     if abs(c1 - c2) > 1e-9:
         raise Violation("classical value of the XOR game %.9f differs from that of the equivalent general game %.9f" % (c1, c2))
+    # the converted game is an object like any other: its values do not depend on which of them was computed before
+    table = nl.pred_mat.copy()
+    c3 = float(nl.classical_value())
+    c4 = float(nl.classical_value())
+    if abs(c3 - c1) > 1e-9 or abs(c4 - c1) > 1e-9:
+        raise Violation("converted game: classical value %.9f on the first call and %.9f on the second call on the same object; the XOR game gives %.9f" % (c3, c4, c1))
+    if not np.array_equal(nl.pred_mat, table):
+        raise Violation("classical_value() of the converted game rescaled its predicate table in place (later values of the same object are those of a different game)")
 
 
 def ns_value(p):
